@@ -16,6 +16,7 @@ class Plan:
         self.assumptions = []
         self.rule_extra = ''
         self.env = {}             # extra environment for the driver (oracle switches)
+        self.scenarios = []       # names in tm_scenarios.ALL: directed schedules followed by TLC and replayed
         self.ticker = False       # replay the state graph of Ticker.tla on the real timeoutTicker
         self.live_runs = []       # [(Cfg, heights, runs)] real-goroutine executions recorded and validated by TLC
 
@@ -108,6 +109,44 @@ def run_live(ctx, plan):
         ctx.cov['live_events'] = events
 
 
+def scenario_traces(ctx, plan):
+    """Directed witnesses: expand the hand-written schedule on the real nodes, let TLC follow it through the spec."""
+    import json, os, subprocess, tempfile
+    from . import tm_scenarios
+    out = []
+    cfg = tm.Cfg('scen-n4', [1, 1, 1, 1], [4], max_round=3, max_height=1, nbyz=1, budget=-1, own_first=False, useful_only=False)
+    for name in plan.scenarios:
+        steps = tm_scenarios.ALL[name]()
+        d = tempfile.mkdtemp(prefix='vscen-')
+        try:
+            tr = {'id': 'free-' + name, 'cfg': {'Power': cfg.power, 'Byz': cfg.byz, 'MaxRound': cfg.max_round, 'MaxHeight': cfg.max_height},
+                  'steps': [{'a': s[0], 'args': s[1:]} for s in steps]}
+            fp = os.path.join(d, 'free.json')
+            ex = os.path.join(d, 'expanded.json')
+            with open(fp, 'w') as f:
+                f.write(json.dumps(tr) + '\n')
+            p = subprocess.run([os.path.join(engine.HARNESS, engine.BIN, 'csim'), fp], stdout=subprocess.PIPE, stderr=subprocess.PIPE,
+                               text=True, errors='replace', timeout=300, env=dict(engine.GOENV, VERIF_CSIM_EXPAND=ex))
+            if p.returncode != 0 or not os.path.exists(ex):
+                ctx.inconclusive.append('scenario %s could not be expanded on the real nodes' % name)
+                continue
+            script = json.load(open(ex))
+        finally:
+            import shutil
+            shutil.rmtree(d, ignore_errors=True)
+        t, n, r = tm.scripted(ctx, cfg, script, name)
+        ctx.cov['tlc_runs'].append(dict(r.summary(), name='Script/' + name, exhaustive=False))
+        if t is None:
+            # the real nodes follow the schedule but the specification cannot: a conformance failure located at step n
+            ctx.failures.append({'key': 'scenario-diverges:' + name, 'property': True, 'kind': 'mismatch',
+                                 'detail': 'the real nodes execute the schedule %s but Tendermint.tla cannot follow it beyond step %d: %s'
+                                           % (name, n, json.dumps(script[n] if n < len(script) else None)[:300]),
+                                 'engine': 'csim', 'replay': None, 'action': name, 'step': n})
+            continue
+        out.append(t)
+    return out
+
+
 def run_ticker(ctx):
     import os
     from .. import tlc
@@ -197,6 +236,7 @@ def run_family(ctx, plan, replay=None):
         if not rep.get('failures'):
             ctx.inconclusive.append('binding self-test: corrupted trace accepted')
     add_pseudo(ctx, traces, plan)
+    traces += scenario_traces(ctx, plan)
     # scripted adversarial schedules that once broke a property on the real code (regression scenarios)
     import glob, json, os
     for p in sorted(glob.glob(os.path.join(tm.SPEC, 'scenarios', '*.json'))):
